@@ -678,9 +678,20 @@ def c03_builders(w: World, rep: Report, rule='C03.R3'):
         rep.check(rule, f'{_vtag(v)}|multisig-operands', ok, line=v.line, file=REL, why=why)
     # quorum <= number of unique keys guard
     fi = cx.fi('make_multisig_lock')
-    g = [ast.unparse(n.args[0]).replace(' ', '') for n in ast.walk(fi.node)
-         if isinstance(n, ast.Call) and isinstance(n.func, ast.Name) and n.func.id == 'vert' and n.args]
-    ok = any(x == 'quorum_size<=len(set(pubkeys))' for x in g)
+    from .guards import edge_formula
+    gcfg = w.cfg(fi)
+    qp = next((p for p in fi.params if fi.annotations.get(p, '') == 'int'), 'quorum_size')
+    kp = next((p for p in fi.params if fi.annotations.get(p, '').startswith('list')), 'pubkeys')
+    wants = [L.formula(ast.parse(f'{qp} <= len(set({kp}))', mode='eval').body)]
+    ok = False
+    for t in gcfg.nodes:
+        if t.kind == 'test' and t.guard is not None:
+            try:
+                f = edge_formula(gcfg, t, True, subst=False)
+            except Exception:
+                continue
+            if any(L.equivalent(f, x)[0] for x in wants):
+                ok = True
     rep.check(rule, 'tools.make_multisig_lock|quorum-le-unique-keys', ok, line=fi.node.lineno, file=REL,
               why='' if ok else 'the builder no longer requires quorum_size <= number of unique public keys')
 
